@@ -3,6 +3,7 @@
 Nothing here imports or executes the module under analysis.
 """
 import ast
+import re
 import hashlib
 import os
 from fractions import Fraction
@@ -44,6 +45,7 @@ class Model:
                 child._parent = node
         self.consts = {}
         self.regexes = {}  # name -> pattern string
+        self.regex_flags = {}  # name -> int (re flags named in the compile call)
         self.classes = {}  # name -> ClassInfo
         self.functions = {}  # module level functions
         self._build()
@@ -69,6 +71,13 @@ class Model:
             ):
                 try:
                     self.regexes[name] = self.const(v.args[0])
+                    fl = 0
+                    fexprs = list(v.args[1:2]) + [k.value for k in v.keywords if k.arg == "flags"]
+                    for fe in fexprs:
+                        for x in ast.walk(fe):
+                            if isinstance(x, ast.Attribute) and isinstance(x.value, ast.Name) and x.value.id == "re" and isinstance(getattr(re, x.attr, None), re.RegexFlag):
+                                fl |= int(getattr(re, x.attr))
+                    self.regex_flags[name] = fl
                 except NotConst:
                     pass
                 return
